@@ -395,6 +395,22 @@ func init() {
 	regCmp(intLeaf[proto.Decimal64]("Decimal(18, 4)", "ColDecimal64", 8, func() proto.ColumnOf[proto.Decimal64] {
 		return rawTyped[proto.Decimal64]{new(proto.ColDecimal64), "Decimal(18, 4)"}
 	}))
+	// the smallest precision of each wider storage class
+	regCmp(intLeaf[proto.Decimal64]("Decimal(10, 3)", "ColDecimal64/p10", 8, func() proto.ColumnOf[proto.Decimal64] {
+		return rawTyped[proto.Decimal64]{new(proto.ColDecimal64), "Decimal(10, 3)"}
+	}))
+	regCmp(leafDef[proto.Decimal128]{typ: "Decimal(19, 4)", kind: "ColDecimal128/p19",
+		mk: func() proto.ColumnOf[proto.Decimal128] {
+			return rawTyped[proto.Decimal128]{new(proto.ColDecimal128), "Decimal(19, 4)"}
+		},
+		to:   func(v ref.Val) proto.Decimal128 { return proto.Decimal128(u128To(v)) },
+		from: func(x proto.Decimal128) ref.Val { return u128From(proto.UInt128(x)) }})
+	regCmp(leafDef[proto.Decimal256]{typ: "Decimal(39, 5)", kind: "ColDecimal256/p39",
+		mk: func() proto.ColumnOf[proto.Decimal256] {
+			return rawTyped[proto.Decimal256]{new(proto.ColDecimal256), "Decimal(39, 5)"}
+		},
+		to:   func(v ref.Val) proto.Decimal256 { return proto.Decimal256(u256To(v)) },
+		from: func(x proto.Decimal256) ref.Val { return u256From(proto.UInt256(x)) }})
 	regCmp(leafDef[proto.Decimal128]{typ: "Decimal(38, 10)", kind: "ColDecimal128",
 		mk: func() proto.ColumnOf[proto.Decimal128] {
 			return rawTyped[proto.Decimal128]{new(proto.ColDecimal128), "Decimal(38, 10)"}
